@@ -27,7 +27,8 @@ package gochannel
 //@   monitor sending guards closed(write), #lastSent
 //@   ghostfield lastSent *message.Message
 //@   ownschan outputChannel, closing
-//@   invariant s.outputChannel != nil && s.closing != nil [mon:sending:channels-exist]
+//@   object-invariant s.ctx != nil && s.logger != nil && s.outputChannel != nil && s.closing != nil && !closeonly(s.outputChannel) [wired-at-creation]
+//@   invariant s.outputChannel != nil && s.closing != nil && !closeonly(s.outputChannel) [mon:sending:channels-exist]
 //@   invariant s.closed == closed(s.outputChannel) [mon:sending:closed-flag-tells-the-output-channel]
 //@   invariant s.closed ==> closed(s.closing) [mon:sending:closing-is-announced-first]
 //@   invariant gf(lastSent, s) == nil || gf(lastSent, s).ackSentType != 0 || closed(s.closing) [mon:sending:at-most-one-unsettled-delivery-unless-closing]
@@ -41,6 +42,7 @@ package gochannel
 //@   modifies s.closed, closed(s.closing), closed(s.outputChannel)
 
 //@ func (*subscriber).sendMessageToSubscriber
+//@   ghost label STS
 //@   requires s != nil && msg != nil && s.ctx != nil
 //@   ghost strong gf(lastSent, s)
 //@   ghost set lastSent(s) = msgToSend @send:s.outputChannel
@@ -65,8 +67,12 @@ package gochannel
 //@   monitor subscribersLock guards subscribers
 //@   monitor persistedMessagesLock guards persistedMessages
 //@   ownschan closing
+//@   syncmap subscribersByTopicLock *sync.Mutex
+//@   object-invariant g.closing != nil && g.logger != nil [wired-at-creation]
+//@   rely old(g.closed) ==> g.closed [closed-is-final]
 //@   invariant g.closing != nil && g.closed == closed(g.closing) [mon:closedLock:closed-flag-tells-the-closing-channel]
 //@   invariant g.subscribers != nil [mon:subscribersLock:subscriber-table-exists]
+//@   invariant forall t string, i int :: has(g.subscribers, t) && 0 <= i && i < len(g.subscribers[t]) ==> g.subscribers[t][i] != nil [mon:subscribersLock:registered-subscriptions-exist]
 //@   invariant g.persistedMessages != nil [mon:persistedMessagesLock:persisted-table-exists]
 
 //@ func (*GoChannel).isClosed
@@ -95,6 +101,75 @@ package gochannel
 //@   requires g != nil && toRemove != nil
 //@   panics-when !(exists j int :: 0 <= j && j < len(g.subscribers[topic]) && g.subscribers[topic][j] == toRemove) [panics-exactly-when-the-subscriber-is-not-registered]
 //@   ensures len(g.subscribers[topic]) == old(len(g.subscribers[topic])) - 1 [one-entry-removed]
+//@   ensures forall j int :: 0 <= j && j < len(g.subscribers[topic]) ==> g.subscribers[topic][j] != nil [remaining-entries-are-subscriptions]
+//@   ensures exists k int :: 0 <= k && k < old(len(g.subscribers[topic])) && old(g.subscribers[topic][k]) == toRemove && (forall j int :: 0 <= j && j < k ==> g.subscribers[topic][j] == old(g.subscribers[topic][j])) && (forall j int :: k <= j && j < len(g.subscribers[topic]) ==> g.subscribers[topic][j] == old(g.subscribers[topic][j + 1])) [exactly-the-first-occurrence-is-cut-out-order-kept]
 //@   ensures forall t string :: t != topic ==> has(g.subscribers, t) == old(has(g.subscribers, t)) && g.subscribers[t] == old(g.subscribers[t]) [other-topics-untouched]
 //@   inv loop 1: removed == false && g.subscribers[topic] == old(g.subscribers[topic]) && (forall j int :: 0 <= j && j <= rangeindex ==> g.subscribers[topic][j] != toRemove) && (forall j int :: 0 <= j && j < len(g.subscribers[topic]) ==> g.subscribers[topic][j] == old(g.subscribers[topic][j])) [not-found-so-far-list-unchanged]
 //@   modifies map(g.subscribers)
+
+//@ func NewGoChannel
+//@   nopanic
+//@   ensures result != nil && fresh(result) && result.logger != nil && !result.closed && result.closing != nil && !closed(result.closing) [a-fresh-open-pubsub]
+//@   ensures result.config.OutputChannelBuffer == config.OutputChannelBuffer && result.config.Persistent == config.Persistent && result.config.BlockPublishUntilSubscriberAck == config.BlockPublishUntilSubscriberAck [with-the-given-configuration]
+//@   ensures result.subscribers != nil && len(result.subscribers) == 0 && result.persistedMessages != nil && len(result.persistedMessages) == 0 && wg(result.subscribersWg) == 0 [no-subscribers-no-persisted-messages]
+
+//@ func (*GoChannel).Close
+//@   requires g != nil && g.logger != nil
+//@   nopanic
+//@   ensures result == nil && g.closed && closed(g.closing) [closed-and-announced]
+//@   modifies g.closed, closed(g.closing), g.persistedMessages
+
+//@ func (*GoChannel).waitForAckFromSubscribers
+//@   requires g != nil && g.logger != nil && msg != nil && g.closing != nil && closeonly(ackedByConsumer)
+//@   nopanic
+//@   ensures closed(ackedByConsumer) || closed(g.closing) [returns-only-after-all-subscribers-settled-or-the-pubsub-is-closing]
+//@   modifies nothing
+
+//@ func (*GoChannel).sendMessage$1$1
+//@   ghost consumes-wg wg
+//@   requires subscriber != nil && message != nil && subscriber.ctx != nil && wg != nil
+//@   nopanic
+//@   ensures ncalls(STS) == old(ncalls(STS)) + 1 && sarg(STS, 0, old(ncalls(STS))) == subscriber && sarg(STS, 1, old(ncalls(STS))) == message [delivers-the-message-to-its-subscriber]
+//@   ensures wgtoken(wg) == 0 [reports-completion-exactly-once]
+
+//@ func (*GoChannel).sendMessage$1
+//@   ghost owns ackedBySubscribers
+//@   requires message != nil && ackedBySubscribers != nil && !closed(ackedBySubscribers) && closeonly(ackedBySubscribers)
+//@   requires forall i int :: 0 <= i && i < len(subscribers) ==> subscribers[i] != nil
+//@   nopanic
+//@   ensures spawned("(*GoChannel).sendMessage$1$1") == old(spawned("(*GoChannel).sendMessage$1$1")) + len(subscribers) [one-sender-per-subscriber-of-the-snapshot]
+//@   ensures forall i int :: 0 <= i && i < len(subscribers) ==> spawnfv("(*GoChannel).sendMessage$1$1", "subscriber", old(spawned("(*GoChannel).sendMessage$1$1")) + i) == subscribers[i] && spawnfv("(*GoChannel).sendMessage$1$1", "message", old(spawned("(*GoChannel).sendMessage$1$1")) + i) == message [the-i-th-sender-serves-the-i-th-subscriber-with-this-message]
+//@   ensures closed(ackedBySubscribers) [signals-completion-after-all-senders-finished]
+//@   inv loop 1: forall i int :: 0 <= i && i <= rangeindex ==> spawnfv("(*GoChannel).sendMessage$1$1", "subscriber", old(spawned("(*GoChannel).sendMessage$1$1")) + i) == subscribers[i] && spawnfv("(*GoChannel).sendMessage$1$1", "message", old(spawned("(*GoChannel).sendMessage$1$1")) + i) == message [senders-so-far]
+//@   inv loop 1: spawned("(*GoChannel).sendMessage$1$1") == old(spawned("(*GoChannel).sendMessage$1$1")) + rangeindex + 1 && wg != nil && !closed(ackedBySubscribers) && wgtoken(wg) == 0 [one-sender-per-visited-subscriber]
+//@   modifies closed(ackedBySubscribers)
+
+//@ func (*GoChannel).sendMessage
+//@   ghost label SM
+//@   ghost holds g.subscribersLock
+//@   ghost closeonly ackedBySubscribers
+//@   requires g != nil && g.logger != nil && message != nil
+//@   nopanic
+//@   ensures result1 == nil && result0 != nil && closeonly(result0) [a-close-only-completion-channel-and-no-error]
+//@   ensures (!has(g.subscribers, topic) || len(g.subscribers[topic]) == 0) ==> closed(result0) && spawned("(*GoChannel).sendMessage$1") == old(spawned("(*GoChannel).sendMessage$1")) [nothing-to-wait-for-without-subscribers]
+//@   ensures has(g.subscribers, topic) && len(g.subscribers[topic]) > 0 ==> spawned("(*GoChannel).sendMessage$1") == old(spawned("(*GoChannel).sendMessage$1")) + 1 && spawnfv("(*GoChannel).sendMessage$1", "message", old(spawned("(*GoChannel).sendMessage$1"))) == message && spawnfv("(*GoChannel).sendMessage$1", "ackedBySubscribers", old(spawned("(*GoChannel).sendMessage$1"))) == result0 [one-dispatcher-for-this-message-signalling-on-the-returned-channel]
+//@   ensures has(g.subscribers, topic) && len(g.subscribers[topic]) > 0 ==> len(spawnarg("(*GoChannel).sendMessage$1", 0, old(spawned("(*GoChannel).sendMessage$1")))) == len(g.subscribers[topic]) && (forall i int :: 0 <= i && i < len(g.subscribers[topic]) ==> spawnarg("(*GoChannel).sendMessage$1", 0, old(spawned("(*GoChannel).sendMessage$1")))[i] == g.subscribers[topic][i]) [dispatcher-gets-a-snapshot-of-exactly-this-topics-subscribers]
+//@   modifies nothing
+
+//@ spec copyof(c *message.Message, m *message.Message) bool := c != nil && c != m && c.UUID == m.UUID && c.Payload == m.Payload && sameMetadata(c.Metadata, m.Metadata)
+
+//@ func (*GoChannel).Publish
+//@   requires g != nil && g.logger != nil
+//@   requires forall i int :: 0 <= i && i < len(messages) ==> messages[i] != nil
+//@   nopanic
+//@   ensures old(g.closed) ==> result != nil [a-closed-pubsub-refuses-to-publish]
+//@   ensures result == nil ==> ncalls(SM) == old(ncalls(SM)) + len(messages) && (forall i int :: 0 <= i && i < len(messages) ==> sarg(SM, 0, old(ncalls(SM)) + i) == g && sarg(SM, 1, old(ncalls(SM)) + i) == topic && copyof(sarg(SM, 2, old(ncalls(SM)) + i), messages[i])) [every-message-is-dispatched-once-in-order-as-a-private-copy-to-its-topic]
+//@   ensures result == nil && g.config.BlockPublishUntilSubscriberAck ==> (forall i int :: 0 <= i && i < len(messages) ==> closed(sret(SM, 0, old(ncalls(SM)) + i)) || closed(g.closing)) [blocking-publish-returns-only-after-every-dispatch-completed-or-the-pubsub-is-closing]
+//@   assert @unlock:g.persistedMessagesLock: ncalls(SM) == old(ncalls(SM)) && has(g.persistedMessages, topic) && len(g.persistedMessages[topic]) == atlock(len(g.persistedMessages[topic])) + len(messages) && (forall i int :: 0 <= i && i < atlock(len(g.persistedMessages[topic])) ==> g.persistedMessages[topic][i] == atlock(g.persistedMessages[topic][i])) && (forall i int :: 0 <= i && i < len(messages) ==> g.persistedMessages[topic][atlock(len(g.persistedMessages[topic])) + i] == messagesToPublish[i]) [persisted-before-any-dispatch-appended-in-order-earlier-entries-kept]
+//@   assert @call:(*GoChannel).sendMessage: held(unboxptr(subLock, "sync.Mutex")) [dispatch-happens-under-the-topic-lock]
+//@   modifies ghost(smhas), ghost(smval)
+//@   inv loop 1: forall j int :: 0 <= j && j <= rangeindex ==> copyof(messagesToPublish[j], messages[j]) [copies-so-far]
+//@   inv loop 1: len(messagesToPublish) == len(messages) && ncalls(SM) == old(ncalls(SM)) [nothing-dispatched-yet]
+//@   inv loop 2: len(messagesToPublish) == len(messages) && (forall j int :: 0 <= j && j < len(messages) ==> copyof(messagesToPublish[j], messages[j])) [all-copied]
+//@   inv loop 2: ncalls(SM) == old(ncalls(SM)) + rangeindex + 1 && (forall j int :: 0 <= j && j <= rangeindex ==> sarg(SM, 0, old(ncalls(SM)) + j) == g && sarg(SM, 1, old(ncalls(SM)) + j) == topic && sarg(SM, 2, old(ncalls(SM)) + j) == messagesToPublish[j]) [dispatched-so-far-in-order]
+//@   inv loop 2: g.config.BlockPublishUntilSubscriberAck ==> (forall j int :: 0 <= j && j <= rangeindex ==> closed(sret(SM, 0, old(ncalls(SM)) + j)) || closed(g.closing)) [waited-for-each-so-far]
